@@ -186,5 +186,19 @@ void harness (void)
   POST (IMP (!t->authenticated, g_get_buffer_calls == 0 && g_get_unused_calls == 0 && g_queue_calls == 0), "get_dispatch_status: unauthenticated => loader untouched");
   POST (st == DBUS_DISPATCH_DATA_REMAINS || st == DBUS_DISPATCH_COMPLETE || st == DBUS_DISPATCH_NEED_MEMORY, "get_dispatch_status: proper status");
   if (g_queue_calls == 1 && !rec0) REACH ("recovered-then-framed"); if (g_queue_calls == 1 && rec0) REACH ("framed"); if (!t->authenticated) REACH ("not-authenticated"); if (st == DBUS_DISPATCH_NEED_MEMORY) REACH ("need-memory");
+#elif VERIF_FN == 4
+  /* "the identity the application then sees is exactly the one that mechanism established": every identity getter of the
+   * transport answers from the AUTHORIZED identity of the auth conversation (never from the raw socket credentials), and
+   * answers nothing before authentication. */
+  static DBusCredentials socket_creds; t->credentials = &socket_creds; cred_havoc (&socket_creds);
+  DBusCredentials *c = _dbus_transport_get_credentials (t);
+  __CPROVER_assert (IMP (!t->authenticated, c == NULL), "identity: no credentials are reported before authentication");
+  __CPROVER_assert (IMP (t->authenticated, c == &g_identity), "identity: the credentials reported are the authorized identity of the auth conversation, not the socket's");
+  unsigned long uid = 12345, pid = 12345;
+  dbus_bool_t ru = _dbus_transport_get_unix_user (t, &uid), rp = _dbus_transport_get_unix_process_id (t, &pid);
+  __CPROVER_assert (ru == (t->authenticated && g_identity.unix_uid != DBUS_UID_UNSET) && IMP (ru, uid == g_identity.unix_uid), "identity: the unix user reported is exactly the authorized uid; none before authentication or for an identity without uid");
+  __CPROVER_assert (rp == (t->authenticated && g_identity.pid != DBUS_PID_UNSET) && IMP (rp, pid == (unsigned long) g_identity.pid), "identity: the process id reported is the authorized identity's");
+  if (t->authenticated && CRED_ANON (&g_identity) && !CRED_ANON (&socket_creds)) REACH ("anonymous-identity-with-socket-uid");
+  if (ru) REACH ("uid-reported"); if (!t->authenticated) REACH ("not-authenticated");
 #endif
 }
